@@ -29,7 +29,13 @@ const (
 	fProviderOnStop
 )
 
-var errInjected = stderrors.New("injected component failure")
+var errPlain = stderrors.New("injected component failure")
+
+// a component that gave up waiting on its own (an HTTP client timeout wrapped on the way up, say):
+// its error wraps context.DeadlineExceeded although the run context is alive and has no deadline
+var errOwnTimeout = errors.Wrap(context.DeadlineExceeded, "component gave up waiting")
+
+var errInjected = errPlain
 
 type hWarmGun struct {
 	hGun
@@ -55,6 +61,10 @@ func c05Scenario(fault int, withCancel bool) {
 	w := &c05World{}
 	prov := &hProvider{q: make(chan core.Ammo, 1), items: m, failAt: -1}
 	aggr := &hAggregator{}
+	errInjected = errPlain
+	if (fault == fProvider || fault == fProviderOnStop || fault == fAggregatorEarly || fault == fAggregatorLate) && vNondetBool("ownTimeout") {
+		errInjected = errOwnTimeout
+	}
 	switch fault {
 	case fProvider:
 		prov.runErr = errInjected
